@@ -75,7 +75,8 @@ def run(chk):
     chk.matchers["c21_annotate_order"] = matcher_annotate
     chk.assumptions = [
         "'equal model' = same type and value recursively (positions and FComponent.expression aside)",
-        "'children in source order' = start positions and end positions of consecutive children do not decrease",
+        "'children in source order' = start positions and end positions of consecutive children do not decrease; children "
+        "that carry their parent's region (made up by the reader) have no place of their own and are not ordered",
         "a region is sliced with Reader.getc's own line rule (a new line starts after LF only)",
     ]
     chk.prove("Props/C21.v", ["Props/C21.vo", "Reader/Extract.vo"], [reader_tables.translate])
@@ -157,6 +158,12 @@ def run(chk):
             for a, b in zip(kids, kids[1:]):
                 pa, pb = a[3], b[3]
                 if None in pa or None in pb:
+                    continue
+                if pa == pos or pb == pos:
+                    # a child the reader (or FString.__new__, joining a literal part with a debugging text) made up
+                    # carries its parent's region: it has no place of its own in the source (C21-synthesized-child /
+                    # C21-fstring-part report its region); the order claim is about children with regions of their own
+                    chk.count("order:skipped-inherited-region")
                     continue
                 if not ((pa[0], pa[1]) <= (pb[0], pb[1]) and (pa[2], pa[3]) <= (pb[2], pb[3])):
                     ci = dict(info)
